@@ -19,7 +19,7 @@ from pbt import wellformed as wf
 from pbt.runner import Check, Disc, Outcome
 
 ABSENT = '\x00ABSENT'   # only inside this module's generators; never part of a spec
-ALPHA: List[Any] = [ABSENT, None, True, False, 0, 1, -1, 1.0, 1.5, '', '2.0', 'x', [], [1], {}, {'a': 1}]
+ALPHA: List[Any] = [ABSENT, None, True, False, 0, 1, -1, 1.0, 1.5, '', '2.0', 'x', [], [1], {}, {'a': 1}, 2.0, 2]
 
 # a few error objects for the response product (the full error product is enumerated on its own)
 ERR_OBJECTS: List[Any] = [
@@ -58,8 +58,8 @@ class C06(Check):
     thorough_examples = 40000
     rule = (
         "cases: (a) the complete product of the per-member alphabet {absent,null,true,false,0,1,-1,1.0,1.5,'','2.0','x',[],[1],{},"
-        "{'a':1}} over jsonrpc/id/method/params (requests: 65536), jsonrpc/id/result/error with error over the alphabet plus 12 "
-        "error objects (responses: 114688) and code/message/data (errors: 4096), enumerated in both tiers; (b) Hypothesis-generated "
+        "{'a':1},2.0,2} over jsonrpc/id/method/params (requests: 104976), jsonrpc/id/result/error with error over the alphabet plus 12 "
+        "error objects (responses: 174960) and code/message/data (errors: 5832), enumerated in both tiers; (b) Hypothesis-generated "
         "arbitrary JSON values, messages with nested payloads and extra members, batches of 0..3 elements, batch-level error objects; "
         "(c) append/extend histories over the id alphabet {null,0,1,2,'1',''}. Oracle: independent validity predicates "
         "(pbt/wellformed.py): valid => object with jeq-equal members, invalid => DeserializationError, duplicate ids => "
@@ -111,7 +111,7 @@ class C06(Check):
                         yield {'kind': 'response', 'value': obj(jsonrpc='2.0', id=i, result=r, error=obj(code=c, message=m, data=d))}
 
     def exhaustive_note(self, tier: str) -> str:
-        return "request / response / error member-alphabet products enumerated completely (185k objects); batches, nested payloads and histories are sampled"
+        return "request / response / error member-alphabet products enumerated completely (286k objects); batches, nested payloads and histories are sampled"
 
     def strategy(self, tier: str):
         a = st.sampled_from(ALPHA)
@@ -436,7 +436,7 @@ CHECK = C06()
 MANIFEST = dict(
     technique="property-based testing (Hypothesis) + exhaustive enumeration of member-alphabet products against independent validity predicates; model-based append/extend histories",
     level_text=(
-        "Every request / response / error object over the 16-value member alphabet (185k objects) is deserialised and judged by an "
+        "Every request / response / error object over the 16-value member alphabet (286k objects) is deserialised and judged by an "
         "independent validity predicate in both tiers (exhaustive over that space); batches, nested payloads, extra members, arbitrary "
         "JSON values and append/extend histories are sampled by Hypothesis and compared with a list+set model. Shows absence of "
         "violations on the explored space only."
